@@ -65,7 +65,8 @@ func (p *ParserZH) ParseAST(l *syntax.Lexer) (pg *syntax.Program, err error) {
 	// ensure there's no remaining token after parsing global block
 	// (the offending token is the one that remains, not the last one that was accepted)
 	if p.peek().Type != TypeEOF {
-		err = p.getInvalidSyntaxPeek()
+		// either a tree or an error - never both
+		return nil, p.getInvalidSyntaxPeek()
 	}
 	return
 }
